@@ -1,5 +1,6 @@
 (* Channels "dfs" and "dfsalgo": depth-first visits, top_sort, is_acyclic (C14). *)
 open Model
+open Model.DfsM
 type string = Stdlib.String.t
 open Conv
 
